@@ -398,7 +398,8 @@ def direct(ck, rng, cfg, br, inst, exhaustive_counter):
     E = guarded("MonteCarloSampler", samp, "c32-sampler")
     if E is not None: report("Monte Carlo sampler", E, "c32-sampler")
     # 1. cluster counter (slow: python loops) -- exhaustive when affordable, else a structured + random subset
-    if exhaustive_counter or len(occs) <= 64:
+    # evalcluster costs ~9 us per cluster image: all occupations when that fits the budget of the tier
+    if (exhaustive_counter and len(occs) * len(inst) * 9e-6 <= ck.n(5.0, 60.0)) or len(occs) <= 64:
         sel = np.arange(len(occs))
     else:
         sel = np.unique(np.concatenate([[0, len(occs) - 1], nr.integers(0, len(occs), size=ck.n(150, 600))]))
